@@ -400,4 +400,4 @@ def st_case(ctx: Ctx):
     )
 
 
-PARTS = [Part("pairs", check_case, strategy=st_case, quick=1200, thorough=60000)]
+PARTS = [Part("pairs", check_case, strategy=st_case, quick=2400, thorough=80000)]
